@@ -2,7 +2,9 @@
 
 use super::*;
 use crate::case::{Backend, Cfg, Fl, Op};
-use crate::enga::{base_opts, fresh_path, guard, page_size, viol, CrashSnap, LiveRec, Mode, Viol, World};
+use crate::enga::{
+    base_opts, fresh_path, guard, page_size, viol, CrashSnap, LiveRec, Mode, Viol, World,
+};
 use crate::flavor::Flavor;
 use crate::runner::{bump, fnv, open_sigs, splitmix};
 use proptest::prelude::*;
@@ -25,7 +27,13 @@ pub struct C06;
 
 const BUDGET: u32 = 2_000;
 
-fn recover<A: Flavor>(cfg: &Cfg, snap: &CrashSnap, live: &[LiveRec], post: &[Op], opdesc: &str) -> Result<BTreeSet<&'static str>, Viol> {
+fn recover<A: Flavor>(
+    cfg: &Cfg,
+    snap: &CrashSnap,
+    live: &[LiveRec],
+    post: &[Op],
+    opdesc: &str,
+) -> Result<BTreeSet<&'static str>, Viol> {
     // every predicate evaluated on the reopened arena is C06's own business
     let prev = crate::enga::set_owner(None);
     let r = recover_inner::<A>(cfg, snap, live, post, opdesc);
@@ -33,29 +41,54 @@ fn recover<A: Flavor>(cfg: &Cfg, snap: &CrashSnap, live: &[LiveRec], post: &[Op]
     r
 }
 
-fn recover_inner<A: Flavor>(cfg: &Cfg, snap: &CrashSnap, live: &[LiveRec], post: &[Op], opdesc: &str) -> Result<BTreeSet<&'static str>, Viol> {
+fn recover_inner<A: Flavor>(
+    cfg: &Cfg,
+    snap: &CrashSnap,
+    live: &[LiveRec],
+    post: &[Op],
+    opdesc: &str,
+) -> Result<BTreeSet<&'static str>, Viol> {
     let page = page_size();
     let off = cfg.off_pages as usize * page;
     let path = fresh_path();
     let mut file = vec![0u8; off];
     file.extend_from_slice(&snap.bytes);
-    std::fs::write(&path, &file).map_err(|e| viol!("C05", "infra", "cannot write snapshot file: {e}"))?;
+    std::fs::write(&path, &file)
+        .map_err(|e| viol!("C05", "infra", "cannot write snapshot file: {e}"))?;
     let cap = snap.bytes.len();
-    let o = base_opts(cfg).with_capacity(cap as u32).with_read(true).with_write(true).with_offset(off as u64);
+    let o = base_opts(cfg)
+        .with_capacity(cap as u32)
+        .with_read(true)
+        .with_write(true)
+        .with_offset(off as u64);
     let p2 = path.clone();
     let r = guard("map_mut", "C06", || unsafe { o.map_mut::<A, _>(&p2) })?;
     let arena = match r {
         Ok(a) => a,
         Err(e) => {
             let _ = std::fs::remove_file(&path);
-            return Err(viol!("C06", "reopen-failed", "file as of a crash in op #{} ({opdesc}) before step {} ({}) does not open: {e}", snap.op, snap.step, snap.what));
+            return Err(viol!(
+                "C06",
+                "reopen-failed",
+                "file as of a crash in op #{} ({opdesc}) before step {} ({}) does not open: {e}",
+                snap.op,
+                snap.step,
+                snap.what
+            ));
         }
     };
     let (d, al, c) = (arena.data_offset(), arena.allocated(), arena.capacity());
-    let where_ = format!("crash in op #{} ({opdesc}) before step {} ({})", snap.op, snap.step, snap.what);
+    let where_ = format!(
+        "crash in op #{} ({opdesc}) before step {} ({})",
+        snap.op, snap.step, snap.what
+    );
     let mut fail: Option<Viol> = None;
     if !(d <= al && al <= c) {
-        fail = Some(viol!("C06", "cursor-out-of-range", "{where_}: reopened cursor {al} outside [data_offset {d}, capacity {c}]"));
+        fail = Some(viol!(
+            "C06",
+            "cursor-out-of-range",
+            "{where_}: reopened cursor {al} outside [data_offset {d}, capacity {c}]"
+        ));
     }
     if fail.is_none() {
         let mem = arena.memory();
@@ -80,7 +113,11 @@ fn recover_inner<A: Flavor>(cfg: &Cfg, snap: &CrashSnap, live: &[LiveRec], post:
     let marked = fl0.nodes.iter().any(|n| n.1 == 0);
     let mut cfg2 = cfg.clone();
     cfg2.backend = Backend::File;
-    let mode = Mode { lenient: true, budget: Some(BUDGET), ..Mode::default() };
+    let mode = Mode {
+        lenient: true,
+        budget: Some(BUDGET),
+        ..Mode::default()
+    };
     let mut w = World::<A>::adopt(&cfg2, mode, arena, Some(path.clone()), live);
     let mut classes = BTreeSet::new();
     if marked {
@@ -110,7 +147,12 @@ fn recover_inner<A: Flavor>(cfg: &Cfg, snap: &CrashSnap, live: &[LiveRec], post:
                 }
                 Err(v) => {
                     w.leak();
-                    Err(viol!("C06", format!("post-crash/{}", v.sig), "{where_}: {}", v.msg))
+                    Err(viol!(
+                        "C06",
+                        format!("post-crash/{}", v.sig),
+                        "{where_}: {}",
+                        v.msg
+                    ))
                 }
             }
         }
@@ -130,7 +172,13 @@ fn recover_inner<A: Flavor>(cfg: &Cfg, snap: &CrashSnap, live: &[LiveRec], post:
             } else {
                 format!("post-crash/{}", v.sig)
             };
-            Err(viol!("C06", sig, "{where_}: after reopen, {} (free list at reopen: {:?})", v.msg, fl0.nodes))
+            Err(viol!(
+                "C06",
+                sig,
+                "{where_}: after reopen, {} (free list at reopen: {:?})",
+                v.msg,
+                fl0.nodes
+            ))
         }
     }
 }
@@ -141,31 +189,70 @@ fn run_c06<A: Flavor>(case: &CaseC06) -> CaseReport {
     if cfg.backend != Backend::File {
         cfg.unify = true;
     }
-    let mode = Mode { crash: A::SYNC, ..Mode::default() };
+    let mode = Mode {
+        crash: A::SYNC,
+        ..Mode::default()
+    };
     // 1. the pre-crash history, recording a snapshot at every atomic step (sync) / op boundary
     let Ok(Some(mut w)) = World::<A>::new(&cfg, mode.clone()) else {
-        return CaseReport { nontrivial: false, classes, viol: None };
+        return CaseReport {
+            nontrivial: false,
+            classes,
+            viol: None,
+        };
     };
     let mut boundary: Vec<CrashSnap> = Vec::new();
     let mut live_log: Vec<(Vec<LiveRec>, Vec<LiveRec>, String)> = Vec::new();
-    let initial = CrashSnap { op: 0, step: 0, what: "before-first-op".into(), bytes: w.mem().to_vec() };
+    let initial = CrashSnap {
+        op: 0,
+        step: 0,
+        what: "before-first-op".into(),
+        bytes: w.mem().to_vec(),
+    };
     let mut hist_viol = None;
     for (i, op) in case.ops.iter().enumerate() {
-        let before: Vec<LiveRec> = w.hs.iter().filter(|h| h.cap > 0).map(|h| LiveRec { id: h.id, off: h.off, cap: h.cap, expect: h.expect.clone() }).collect();
+        let before: Vec<LiveRec> =
+            w.hs.iter()
+                .filter(|h| h.cap > 0)
+                .map(|h| LiveRec {
+                    id: h.id,
+                    off: h.off,
+                    cap: h.cap,
+                    expect: h.expect.clone(),
+                })
+                .collect();
         if let Err(v) = w.step(i, op) {
             hist_viol = Some(v);
             break;
         }
         if !A::SYNC {
-            let after: Vec<LiveRec> = w.hs.iter().filter(|h| h.cap > 0).map(|h| LiveRec { id: h.id, off: h.off, cap: h.cap, expect: h.expect.clone() }).collect();
+            let after: Vec<LiveRec> =
+                w.hs.iter()
+                    .filter(|h| h.cap > 0)
+                    .map(|h| LiveRec {
+                        id: h.id,
+                        off: h.off,
+                        cap: h.cap,
+                        expect: h.expect.clone(),
+                    })
+                    .collect();
             live_log.push((before, after, format!("{op:?}")));
-            boundary.push(CrashSnap { op: i, step: u32::MAX, what: "end-of-op".into(), bytes: w.mem().to_vec() });
+            boundary.push(CrashSnap {
+                op: i,
+                step: u32::MAX,
+                what: "end-of-op".into(),
+                bytes: w.crash_bytes(),
+            });
         }
     }
     if let Some(v) = hist_viol {
         classes.extend(w.classes.iter().copied());
         w.leak();
-        return CaseReport { nontrivial: false, classes, viol: Some(v) };
+        return CaseReport {
+            nontrivial: false,
+            classes,
+            viol: Some(v),
+        };
     }
     let mut snaps: Vec<CrashSnap> = vec![initial];
     if A::SYNC {
@@ -180,7 +267,13 @@ fn run_c06<A: Flavor>(case: &CaseC06) -> CaseReport {
     let hist_classes = w.classes.clone();
     match w.teardown() {
         Ok(_) => {}
-        Err(v) => return CaseReport { nontrivial: false, classes, viol: Some(v) },
+        Err(v) => {
+            return CaseReport {
+                nontrivial: false,
+                classes,
+                viol: Some(v),
+            }
+        }
     }
     // 2. choose the crash points to evaluate
     let total = snaps.len();
@@ -192,8 +285,16 @@ fn run_c06<A: Flavor>(case: &CaseC06) -> CaseReport {
         let interesting: Vec<usize> = (0..live_log.len())
             .filter(|k| {
                 let d = &live_log[*k].2;
-                let steps = snaps.iter().filter(|s| s.op == *k && s.step != u32::MAX).count();
-                ((d.starts_with("Drop") || d.starts_with("Dealloc") || d.starts_with("Discard") || d.starts_with("Alloc") || d.starts_with("Fill")) && steps >= 4)
+                let steps = snaps
+                    .iter()
+                    .filter(|s| s.op == *k && s.step != u32::MAX)
+                    .count();
+                ((d.starts_with("Drop")
+                    || d.starts_with("Dealloc")
+                    || d.starts_with("Discard")
+                    || d.starts_with("Alloc")
+                    || d.starts_with("Fill"))
+                    && steps >= 4)
                     || ((d.starts_with("Clear") || d.starts_with("Rewind")) && steps >= 2)
             })
             .collect();
@@ -204,7 +305,9 @@ fn run_c06<A: Flavor>(case: &CaseC06) -> CaseReport {
             must.truncate(limit);
         }
         let mut rest: Vec<usize> = (0..total).filter(|i| !must.contains(i)).collect();
-        rest.sort_by_key(|i| splitmix(case.pick as u64 ^ (*i as u64).wrapping_mul(0x9E3779B97F4A7C15)));
+        rest.sort_by_key(|i| {
+            splitmix(case.pick as u64 ^ (*i as u64).wrapping_mul(0x9E3779B97F4A7C15))
+        });
         rest.truncate(limit.saturating_sub(must.len()));
         chosen = must;
         chosen.extend(rest);
@@ -222,7 +325,13 @@ fn run_c06<A: Flavor>(case: &CaseC06) -> CaseReport {
             if s.step == u32::MAX {
                 (a.clone(), d.clone())
             } else {
-                (b.iter().filter(|x| a.iter().any(|y| y.id == x.id)).cloned().collect(), d.clone())
+                (
+                    b.iter()
+                        .filter(|x| a.iter().any(|y| y.id == x.id))
+                        .cloned()
+                        .collect(),
+                    d.clone(),
+                )
             }
         };
         bump("crash_points_evaluated", 1);
@@ -244,13 +353,24 @@ fn run_c06<A: Flavor>(case: &CaseC06) -> CaseReport {
                     classes.insert("known-finding-hit");
                     continue;
                 }
-                return CaseReport { nontrivial: false, classes, viol: Some(v) };
+                return CaseReport {
+                    nontrivial: false,
+                    classes,
+                    viol: Some(v),
+                };
             }
         }
     }
     let _ = fnv;
-    let nontrivial = inside_freelist_op && (hist_classes.contains("slow-path") || hist_classes.contains("release-segment") || hist_classes.contains("discard-nonempty"));
-    CaseReport { nontrivial, classes, viol: None }
+    let nontrivial = inside_freelist_op
+        && (hist_classes.contains("slow-path")
+            || hist_classes.contains("release-segment")
+            || hist_classes.contains("discard-nonempty"));
+    CaseReport {
+        nontrivial,
+        classes,
+        viol: None,
+    }
 }
 
 impl Prop for C06 {
@@ -260,7 +380,9 @@ impl Prop for C06 {
     const SHRINK_ITERS: u32 = 400;
     fn strategy(tier: Tier) -> BoxedStrategy<CaseC06> {
         let mut p = Profile::base();
-        p.backends = &[(8, Backend::Vec), (1, Backend::Anon), (1, Backend::File)];
+        p.backends = &[(8, Backend::Vec), (1, Backend::Anon), (2, Backend::File)];
+        // unsync only (the interpreter skips it elsewhere): a resize is an operation of a writable arena as well
+        p.w_truncate = 3;
         p.caps = SMALL_CAPS;
         p.max_ops = if tier == Tier::Thorough { 40 } else { 18 };
         p.prelude_pct = 70;
@@ -289,7 +411,19 @@ impl Prop for C06 {
         pp.owned_pct = 0;
         let npost = if tier == Tier::Thorough { 16 } else { 8 };
         let all = tier == Tier::Thorough;
-        (case_strategy(&p), prop::collection::vec(op_strategy(&pp), 1..=npost), any::<u32>()).prop_map(move |(c, post, pick)| CaseC06 { cfg: c.cfg, ops: c.ops, post, pick, all }).boxed()
+        (
+            case_strategy(&p),
+            prop::collection::vec(op_strategy(&pp), 1..=npost),
+            any::<u32>(),
+        )
+            .prop_map(move |(c, post, pick)| CaseC06 {
+                cfg: c.cfg,
+                ops: c.ops,
+                post,
+                pick,
+                all,
+            })
+            .boxed()
     }
     fn run(case: &CaseC06) -> CaseReport {
         crate::enga::set_owner(Some("C06"));
@@ -318,8 +452,27 @@ impl Prop for C06 {
         ]
     }
     fn simplify(c: &CaseC06) -> Vec<CaseC06> {
-        let mut out: Vec<CaseC06> = simplify_case_a(&CaseA { cfg: c.cfg.clone(), ops: c.ops.clone() }).into_iter().map(|x| CaseC06 { ops: x.ops, ..c.clone() }).collect();
-        out.extend(simplify_case_a(&CaseA { cfg: c.cfg.clone(), ops: c.post.clone() }).into_iter().map(|x| CaseC06 { post: x.ops, ..c.clone() }));
+        let mut out: Vec<CaseC06> = simplify_case_a(&CaseA {
+            cfg: c.cfg.clone(),
+            ops: c.ops.clone(),
+        })
+        .into_iter()
+        .map(|x| CaseC06 {
+            ops: x.ops,
+            ..c.clone()
+        })
+        .collect();
+        out.extend(
+            simplify_case_a(&CaseA {
+                cfg: c.cfg.clone(),
+                ops: c.post.clone(),
+            })
+            .into_iter()
+            .map(|x| CaseC06 {
+                post: x.ops,
+                ..c.clone()
+            }),
+        );
         out
     }
 }
